@@ -66,6 +66,7 @@ type frame struct {
 	symIf     map[ssa.Instruction]int
 	depth     int
 	curInstr  ssa.Instruction
+	selSpin   map[*ssa.Select]int // consecutive takes of a closed-channel case
 }
 
 type nondetRec struct {
@@ -149,6 +150,7 @@ type Machine struct {
 	inHavoc   bool
 	protSeen  map[*Value]bool
 	curCoro   *coro
+	mainW     waiter
 	timers    []*Native
 	pinnedOn  bool
 	pinPos    int
